@@ -31,6 +31,8 @@ CONSTANTS
   PubOn,     \* replicas that may publish their manifest (ToMultihash) ({} = never)
   WriteFaults,\* TRUE: the store may refuse the block write of an append
   ForkOn,    \* replicas that may be rebuilt from another replica's entries and heads (NewLog with options) ({} = never)
+  Payloads,  \* payload kinds offered to Append: "p" (some bytes), "empty" (zero-length payload - accepted, signed, stored)
+  CrossFork, \* TRUE: a Fork may also take the entries of a replica with ANOTHER log id (a log with its own id built on foreign entries)
   LoadKinds  \* loaders by which a ForkOn replica may be rebuilt from the store: "entry","json","hash","mh" ({} = never)
 
 VARIABLES
@@ -78,7 +80,9 @@ NewEntry(r, pc) ==
   IN [w |-> ident[r], t |-> p.t, next |-> p.next, refs |-> p.refs,
       h |-> HRank(Len(U) + 1), lid |-> Lid[r]]
 
-AppendOk(r, pc) ==
+AOp(name, r, pc, pl) == IF pl = "p" THEN <<name, r, pc>> ELSE <<name, r, pc, pl>>
+
+AppendOk(r, pc, pl) ==
   /\ CanOp /\ Len(U) < MaxE
   /\ ident[r] \notin Denied[r]
   /\ LET e == NewEntry(r, pc)
@@ -88,23 +92,23 @@ AppendOk(r, pc) ==
         /\ heads' = [heads EXCEPT ![r] = <<id>>]
         /\ nidx'  = [nidx EXCEPT ![r] = @ \cup SeqRange(e.next)]
         /\ clk'   = [clk EXCEPT ![r] = e.t]
-  /\ hist' = Append(hist, <<"A", r, pc>>)
+  /\ hist' = Append(hist, AOp("A", r, pc, pl))
   /\ UNCHANGED <<ident, pure, bad>>
 
-AppendDenied(r, pc) ==
+AppendDenied(r, pc, pl) ==
   /\ CanOp /\ Len(U) < MaxE
   /\ ident[r] \in Denied[r]
   /\ LET e == NewEntry(r, pc)
      IN /\ U' = Append(U, e)                      \* the orphan block
         /\ clk' = [clk EXCEPT ![r] = e.t]         \* the tick is kept
-  /\ hist' = Append(hist, <<"A", r, pc>>)
+  /\ hist' = Append(hist, AOp("A", r, pc, pl))
   /\ UNCHANGED <<ents, heads, nidx, ident, pure, bad>>
 
 \* the store refuses the block: CreateEntryWithIO fails, Append returns the error; only the clock tick remains
-AppendWriteFault(r, pc) ==
+AppendWriteFault(r, pc, pl) ==
   /\ CanOp /\ WriteFaults
   /\ LET e == NewEntry(r, pc) IN clk' = [clk EXCEPT ![r] = e.t]
-  /\ hist' = Append(hist, <<"AF", r, pc>>)
+  /\ hist' = Append(hist, AOp("AF", r, pc, pl))
   /\ UNCHANGED <<U, ents, heads, nidx, ident, pure, bad>>
 
 (***************************************************************************)
@@ -164,16 +168,19 @@ SetIdentity(r, w) ==
 (* LogOptions.Heads = src.Heads() (log.go l.103-176), as the loaders and   *)
 (* any caller holding a log may do.  The new instance replaces replica r;  *)
 (* it keeps r's identity and access controller, indexes every next of the  *)
-(* given entries and starts its clock at the newest head.                  *)
+(* given entries and starts its clock at the newest head.  With CrossFork  *)
+(* the source may be a log with another id: the new log then holds         *)
+(* genuinely signed entries that carry a foreign id below its own ones -   *)
+(* which a merge from it must not admit (C06).                             *)
 (***************************************************************************)
 Fork(r, s) ==
-  /\ CanOp /\ r \in ForkOn /\ r # s /\ Lid[r] = Lid[s] /\ ents[s] # {}
+  /\ CanOp /\ r \in ForkOn /\ r # s /\ (Lid[r] = Lid[s] \/ CrossFork) /\ ents[s] # {}
   /\ bad[r] = {} /\ bad[s] = {}
   /\ ents'  = [ents EXCEPT ![r] = ents[s]]
   /\ heads' = [heads EXCEPT ![r] = SortIds(U, Fn, heads[s], TRUE)]      \* given in Heads() order
   /\ nidx'  = [nidx EXCEPT ![r] = NextsOf(U, ents[s])]
   /\ clk'   = [clk EXCEPT ![r] = MaxTimeOf(U, heads[s], 0)]
-  /\ pure'  = [pure EXCEPT ![r] = pure[s]]
+  /\ pure'  = [pure EXCEPT ![r] = pure[s] /\ Lid[r] = Lid[s]]
   /\ hist'  = Append(hist, <<"F", r, s>>)
   /\ UNCHANGED <<U, ident, bad>>
 
@@ -264,7 +271,7 @@ Next ==
   \/ \E r \in PubOn : Publish(r)
   \/ \E r \in Evil, k \in Kinds : \E x \in ents[r] : Tamper(r, x, k)
   \/ \E r \in IterOn : \E o \in IterOptions(r) : Iterate(r, o)
-  \/ \E r \in R, pc \in PCs : AppendOk(r, pc) \/ AppendDenied(r, pc) \/ AppendWriteFault(r, pc)
+  \/ \E r \in R, pc \in PCs, pl \in Payloads : AppendOk(r, pc, pl) \/ AppendDenied(r, pc, pl) \/ AppendWriteFault(r, pc, pl)
   \/ \E r, s \in R : JoinNoop(r, s) \/ JoinOk(r, s, -1) \/ JoinFail(r, s, -1)
   \/ \E r, s \in R, n \in Sizes : JoinOk(r, s, n) \/ JoinFail(r, s, n)
   \/ \E r \in R, w \in Writers : SetIdentity(r, w)
